@@ -12,8 +12,8 @@ ids = sys.argv[1:] or sorted(CHECKS)
 for pid in ids:
     for n, run in enumerate(CHECKS[pid]["runs"]):
         params = dict(run.get("params", {})); params.update(run.get("thorough", {}))
-        if "thorough" not in run and not run.get("thorough_only") and os.environ.get("ONLY_DIFF"):
-            continue
+        if os.environ.get("ONLY_DIFF") and not run.get("thorough_only") and run.get("thorough", {}) == run.get("quick", {}):
+            continue  # same bounds as the quick tier: validated by the quick pass
         out = "/tmp/tt-%s-%d.json" % (pid, n)
         cmd = ["timeout", str(CAP), os.path.join(ROOT, "bin", "gosym"), "-repo", os.environ.get("VERIF_REPO", "/repo"),
                "-pkg", "./" + run.get("pkg", "slog"), "-harness", os.path.join(ROOT, "harness"), "-fn", run["harness"],
